@@ -184,7 +184,7 @@ package tor
 
 //@ func (*writer).ReadFrom
 //@   requires w != nil && r != nil && WOK(w)
-//@   modifies w.count, w.offset, w.buf, heap:github.com/jech/storrent/tor/piece.Pieces.count, heap:E:github.com/jech/storrent/tor/piece.Piece.data, heap:E:github.com/jech/storrent/tor/piece.Piece.bitmap, heap:E:github.com/jech/storrent/tor/piece.Piece.peers, heap:A:uint8, heap:A:uint32, heap:global:github.com/jech/storrent/alloc.allocated
+//@   modifies consumed(r), w.count, w.offset, w.buf, heap:github.com/jech/storrent/tor/piece.Pieces.count, heap:E:github.com/jech/storrent/tor/piece.Piece.data, heap:E:github.com/jech/storrent/tor/piece.Piece.bitmap, heap:E:github.com/jech/storrent/tor/piece.Piece.peers, heap:A:uint8, heap:A:uint32, heap:global:github.com/jech/storrent/alloc.allocated
 //@   ensures  [closed] old(w.t) == nil ==> $r0 == 0 && $r1 != nil
 //@   ensures  [ok]     WOK(w)
 //@   ensures  [end]    old(w.t) != nil ==> int(w.offset) + int(w.count) == old(int(w.offset) + int(w.count))
